@@ -110,7 +110,7 @@ Lemma cleanup_nodup nr o m : NoDup (dropClosing nr) -> (3 <= length (dropClosing
 Proof.
   intros ND Hl. rewrite cleanupNewRing_eq. cbn zeta.
   replace (length (dropClosing nr) <? 3)%nat with false by (symmetry; apply Nat.ltb_ge; exact Hl).
-  rewrite (ProofsKmpSubseq.kmp_id_NoDup _ ND). cbn [bind].
+  rewrite (ProofsKmpSubseq.kmp_id_NoDup _ ND). cbn [bind]. cbn zeta. rewrite (trimClosing_NoDup _ ND).
   replace (length (dropClosing nr) <? 3)%nat with false by (symmetry; apply Nat.ltb_ge; exact Hl). reflexivity.
 Qed.
 
